@@ -1,17 +1,71 @@
 import EpdVerif.Drivers.Dsl
 import EpdVerif.Gen.Epd2in9
-/-! model of `src/epd2in9/mod.rs` (STUB: programs not yet transcribed) -/
+import EpdVerif.Gen.Type_a
+/-! model of `src/epd2in9/mod.rs` -/
 namespace EpdVerif.Drivers.Epd2in9
 open EpdVerif
 open EpdVerif.Gen.Epd2in9
+open EpdVerif.Gen.Type_a
 
-def prog (_f : Feat) (_d : DState) : Op → Option (List Act)
+def W : Act := .wait IS_BUSY_LOW
+
+/-- `set_ram_area`: no leading wait here (unlike epd1in54), only the asserts -/
+def setRamArea (sx sy ex ey : Nat) : List Act :=
+  assertA (sx < ex) ++ assertA (sy < ey) ++
+  cmdData Command.SetRamXAddressStartEndPosition [shr8 sx 3, shr8 ex 3] ++
+  cmdData Command.SetRamYAddressStartEndPosition [u8 sy, shr8 sy 8, u8 ey, shr8 ey 8]
+
+def setRamCounter (x y : Nat) : List Act :=
+  [W] ++ cmdData Command.SetRamXAddressCounter [shr8 x 3] ++
+  cmdData Command.SetRamYAddressCounter [u8 y, shr8 y 8]
+
+def useFullFrame : List Act := setRamArea 0 0 (WIDTH - 1) (HEIGHT - 1) ++ setRamCounter 0 0
+
+def lutFull (f : Feat) : Bytes := if f.alt then LUT_FULL_UPDATE_alt else LUT_FULL_UPDATE_std
+
+def setLutHelper (t : Bytes) : List Act :=
+  [W] ++ assertA (t.length = 30) ++ cmdData Command.WriteLutRegister t
+
+def setLut (f : Feat) (d : DState) (r : Option Refresh) : List Act :=
+  (match r with | some m => [Act.upd (fun d => { d with refresh := m })] | none => []) ++
+  (match r.getD d.refresh with
+   | .full => setLutHelper (lutFull f)
+   | .quick => setLutHelper LUT_PARTIAL_UPDATE)
+
+def init (f : Feat) (d : DState) : List Act :=
+  [.reset 10000 10000, W] ++
+  cmdData Command.DriverOutputControl [0x27, 0x01, 0x00] ++
+  cmdData Command.BoosterSoftStartControl [0xD7, 0xD6, 0x9D] ++
+  cmdData Command.WriteVcomRegister [0xA8] ++
+  cmdData Command.SetDummyLinePeriod [0x1A] ++
+  cmdData Command.SetGateLineWidth [0x08] ++
+  cmdData Command.DataEntryModeSetting [0x03] ++
+  setLut f d none
+
+def updateFrame (b : Bytes) : List Act := [W] ++ useFullFrame ++ cmdData Command.WriteRam b
+
+def displayFrame : List Act :=
+  [W] ++ cmdData Command.DisplayUpdateControl2 [0xC4] ++ [.cmd Command.MasterActivation, .cmd Command.Nop]
+
+def prog (f : Feat) (d : DState) : Op → Option (List Act)
+  | .new => some (init f d)
+  | .wake => some ([W] ++ init f d)
+  | .sleep => some ([W] ++ cmdData Command.DeepSleepMode [0x00])
+  | .upd b => some (updateFrame b)
+  | .part b x y w h =>
+    some ([W] ++ setRamArea x y (x + w) (y + h) ++ setRamCounter x y ++ cmdData Command.WriteRam b)
+  | .disp => some displayFrame
+  | .updisp b => some (updateFrame b ++ displayFrame)
+  | .clear => some ([W] ++ useFullFrame ++ [.cmd Command.WriteRam, .rep (byteValue d.bg) (WIDTH / 8 * HEIGHT)])
+  | .bg c => some [.upd (fun d => { d with bg := c })]
+  | .lut r => some (setLut f d r)
+  | .wait => some [W]
   | _ => none
 
 def panel (f : Feat) : Panel :=
   { name := "epd2in9", width := WIDTH, height := HEIGHT, single := SINGLE_BYTE_WRITE,
     busyLow := IS_BUSY_LOW, family := .ssd, colors := 2,
-    init := { bg := DEFAULT_BACKGROUND_COLOR },
+    init := { bg := DEFAULT_BACKGROUND_COLOR, refresh := .full },
     prog := prog f,
     ctrl := .ssd (Ssd.por false 30 320) }
 
